@@ -267,7 +267,7 @@ def render_plain(mode, body, name="f", use="reveal_type(v)"):
             elif k == "gcall":
                 lines.append(pad + "g()")
             elif k == "hdef":
-                lines += [pad + "def h():", pad + "    nonlocal v", f"{pad}    v = {lits[p]}"]
+                lines.extend([pad + "def h():", pad + "    nonlocal v", f"{pad}    v = {lits[p]}"])
             elif k == "hcall":
                 lines.append(pad + "h()")
             elif k == "if":
@@ -338,7 +338,7 @@ def render_instr(mode, body, name="f"):
             if k == "asg":
                 lines.append(f"{pad}v = {lits[p]}")
             elif k == "use":
-                lines += use_lines(pad, sites[p], n)
+                lines.extend(use_lines(pad, sites[p], n))
             elif k in ("break", "continue", "return"):
                 lines.append(pad + k)
             elif k == "raise":
@@ -347,11 +347,11 @@ def render_instr(mode, body, name="f"):
                 lines.append(f"{pad}D.boom({n})")
             elif k == "gdef":
                 lines.append(pad + "def g():")
-                lines += use_lines(pad + "    ", sites[p], 0)
+                lines.extend(use_lines(pad + "    ", sites[p], 0))
             elif k == "gcall":
                 lines.append(f"{pad}g(); D.boom({n})")
             elif k == "hdef":
-                lines += [pad + "def h():", pad + "    nonlocal v", f"{pad}    v = {lits[p]}"]
+                lines.extend([pad + "def h():", pad + "    nonlocal v", f"{pad}    v = {lits[p]}"])
             elif k == "hcall":
                 lines.append(pad + "h()")
             elif k == "if":
@@ -364,9 +364,9 @@ def render_instr(mode, body, name="f"):
                 counter[0] += 1
                 cell = f"_n{counter[0]}"
                 if k == "while":
-                    lines += [f"{pad}{cell} = [0]", f"{pad}while D.loop({cell}, {n}):"]
+                    lines.extend([f"{pad}{cell} = [0]", f"{pad}while D.loop({cell}, {n}):"])
                 elif k == "wtrue":
-                    lines += [f"{pad}{cell} = [0]", f"{pad}while D.wtrue({cell}):"]
+                    lines.extend([f"{pad}{cell} = [0]", f"{pad}while D.wtrue({cell}):"])
                 else:
                     lines.append(f"{pad}for _ in D.it({n}):")
                 block(s[1], f"{k}-body", p, ind + 1, prot, False)
